@@ -842,6 +842,10 @@ fn create_parent_map<E>(
             .node_edges(node_ix)
             .ok_or_else(|| PredicateError::InvalidNodeEdges(node_ix))?
         {
+            // An edge must point to an existing node.
+            if usize::from(*edge) >= predicate.nodes.len() {
+                return Err(PredicateError::InvalidNodeEdges(node_ix));
+            }
             // Insert the child if it's not already there and then add this node as a parent
             nodes.entry(*edge).or_default().push(node_ix as u16);
         }
